@@ -282,7 +282,7 @@ fn run<C: CI>(ctx: &mut Ctx) {
             Extend::extend(&mut ext, syms[cut..].iter().copied());
             check!(ctx, ext.to_string() == text && ext == reference, format!("extend|{name}|content"), "extend of {:?} gives {:?}", text, ext.to_string());
             // the same symbols through iterators with unusual size hints
-            if r % 4 == 0 || ctx.lite {
+            if (r % 4 == 0 && !ctx.lite) || (ctx.lite && r == 0) {
                 iterator_shapes(&syms, |shape, it| {
                     let got = observe(|| it.collect::<Seq<C>>());
                     check!(ctx, got.as_ref().map(|g| g.to_string() == text && g.len() == n).unwrap_or(false), format!("FromIterator|{name}|{shape}"), "collect of {:?} ({n} symbols) from an iterator with size hint shape {shape}: {:?}", &text[..text.len().min(40)], got.map(|g| g.to_string()));
